@@ -1,10 +1,12 @@
 import Flodym.Driver.NpCmds
 import Flodym.Driver.DsmCmds
+import Flodym.Driver.SysCmds
 open Flodym.Driver
 
 structure St where
   store : Store := {}
   dsm : DsmState := {}
+  sys : SysState := {}
 
 def stepA (s : Store) (toks : List String) : Store × String :=
     match arrayStep s toks with
@@ -28,6 +30,9 @@ def step (s : St) (line : String) : St × String :=
   | _ =>
     match dsmStep s.dsm toks with
     | some (d, o) => ({ s with dsm := d }, o)
+    | none =>
+    match sysStep s.store s.sys toks with
+    | some (y, o) => ({ s with sys := y }, o)
     | none => let (st, o) := stepA s.store toks; ({ s with store := st }, o)
 
 partial def loop (h : IO.FS.Stream) (out : IO.FS.Stream) (s : St) : IO Unit := do
